@@ -190,6 +190,18 @@ PROPS = {
         trusted_base=TB_COMMON + ["gofacts translator: the rotation condition is regenerated from file_sink.go on every run"],
         assumptions=FS_ASSUME, rule=FS_RULE,
     ),
+    "C13": dict(
+        module="Evl.Props.C13",
+        theorems=["Evl.C13.writer_success", "Evl.C13.writer_error", "Evl.C13.table_lww", "Evl.C13.filesink_specials",
+                  "Evl.C13.channel_exactly_one", "Evl.C13.write_under_lock"],
+        runs=[dict(model="sinks", sub="sinks", driver="sinks", quick=["-n", "4000"], thorough=["-n", "120000"], search=["-n", "40000"]), FS_RUN],
+        oracle_prefixes=["C13"], models=["M9 Sinks", "Generated.LockSites(sinkWrites)"],
+        trusted_base=TB_COMMON + ["gofacts translator: the WriteTo call sites and the lock held there are regenerated from source"],
+        assumptions=["bytes.Reader.WriteTo issues one Write and reports io.ErrShortWrite on a short count (Go standard library)",
+                     "Go's select chooses among ready arms; time.After fires after the duration",
+                     "partial: wall-clock latency of ChannelSink is measured by the harness (must not block when an arm is ready, nor much longer than the timeout), not proved"],
+        rule="writer.Sink over random format tables (0-3 formats) x configured format x writers {ok, failing, short n, nil} x nil event; FileSink /dev/null and stdout pass-through; ChannelSink with channel full/empty x context cancelled or not (timeout 15 ms); Event.FormattedAs/Format sequences; 1-16 concurrent Process calls with an interleaving check; distinct by op line",
+    ),
     "C11": dict(
         module="Evl.Props.C11",
         theorems=["Evl.C11.conservation_step", "Evl.C11.conservation", "Evl.C11.no_duplication", "Evl.C11.passthrough",
